@@ -155,6 +155,8 @@ class SshSoftwareVersionParsedBase(SshSoftwareVersionBase):
                 parser.parse_separator(version_separator, 1, 1)
             except InvalidValue as e:
                 six.raise_from(InvalidType(), e)
+            if not parser.unparsed_length:
+                raise InvalidType()
             parser.parse_string_by_length('version')
             version = parser['version']
         else:
